@@ -1,7 +1,7 @@
 (** Prop_C11.v -- C11: restarting the server is invisible to reconnecting
     clients.  Statements quoted by type from ViewFacts.v (printed by [Check]). *)
 From MW Require Import Base Store Monad Usage Server Websocket Service Findings Inv Obs
-     StepFacts ViewFacts Inst_Params.
+     StepFacts ViewFacts Inst_Params RestartFacts.
 Local Open Scope list_scope.
 
 (** a restart (in any well-formed state, i.e. at any point of any history) leaves
@@ -26,6 +26,53 @@ Theorem C11_step_congruence : ltac:(let t := type of step_view_congruence in exa
 Proof. exact step_view_congruence. Qed.
 Check C11_step_congruence.
 Print Assumptions C11_step_congruence.
+
+(** ** the precise relation between a restart and a server that merely lost its connections (RestartFacts.v)
+
+    [restart_vs_kept_exact]: the restarted server's channel-relevant view equals that of the kept server after
+    one sweep at the same instant; it equals the kept server's view OUTRIGHT iff nothing is expirable at that
+    instant ([nothing_expirable]); in general the two differ exactly by the mailboxes (with messages, side
+    records, nameplates) that are old at the restart instant: the start-up sweep anticipates what the kept
+    server's next periodic sweep would delete -- observably so only for a client that comes back to such a
+    mailbox before that sweep ([expired_reopen_visible] is the witness; it is the expiry granularity, not a loss
+    of state).  [restart_invisible_r]: the continuation may contain further restarts and [ECrash 0]; the
+    same-firing hypothesis is needed only for the clock advances before the first of them (afterwards the two
+    runs' timers coincide).  [restart_invisible_from_init]: closed form over every history before the restart,
+    crashes included.  [restart_invisible_kept]: against the kept server with NO sweep inserted, when nothing is
+    expirable. *)
+Theorem C11_restart_vs_kept_exact : ltac:(let t := type of restart_vs_kept_exact in exact t).
+Proof. exact restart_vs_kept_exact. Qed.
+Check C11_restart_vs_kept_exact.
+Print Assumptions C11_restart_vs_kept_exact.
+
+Theorem C11_restart_invisible_r : ltac:(let t := type of restart_invisible_r in exact t).
+Proof. exact restart_invisible_r. Qed.
+Check C11_restart_invisible_r.
+Print Assumptions C11_restart_invisible_r.
+
+Theorem C11_restart_invisible_kept : ltac:(let t := type of restart_invisible_kept in exact t).
+Proof. exact restart_invisible_kept. Qed.
+Check C11_restart_invisible_kept.
+Print Assumptions C11_restart_invisible_kept.
+
+Theorem C11_restart_invisible_from_init : ltac:(let t := type of restart_invisible_from_init in exact t).
+Proof. exact restart_invisible_from_init. Qed.
+Check C11_restart_invisible_from_init.
+Print Assumptions C11_restart_invisible_from_init.
+
+Theorem C11_kept_next_sweep : ltac:(let t := type of kept_next_sweep in exact t).
+Proof. exact kept_next_sweep. Qed.
+Print Assumptions C11_kept_next_sweep.
+
+Example C11_restart_nonvacuous : ltac:(let t := type of restart_nonvacuous in exact t).
+Proof. exact restart_nonvacuous. Qed.
+
+Example C11_restart_kept_nonvacuous : ltac:(let t := type of restart_kept_nonvacuous in exact t).
+Proof. exact restart_kept_nonvacuous. Qed.
+
+Example C11_expired_reopen_visible : ltac:(let t := type of expired_reopen_visible in exact t).
+Proof. exact expired_reopen_visible. Qed.
+
 
 Example C11_nonvacuous : 0 < exp (gen_cfg true true None).
 Proof. exact (gen_cfg_exp _ _ _). Qed.
